@@ -346,6 +346,26 @@ def parse_return(e, partials, weights, post, freqs, props) -> dict:
     if not (isinstance(inner, ast.Call) and method_name(inner) == 'log' and inner.args):
         raise Unsupported(inner, 'per-site term is not torch.log(…)')
     arg = inner.args[0]
+    # value-altering wrappers between the root sum and the log: X.clamp(min=…), torch.clamp(X, …), torch.max(X, eps), torch.where(X > 0, X, eps), X + eps
+    altered = []
+    while True:
+        if isinstance(arg, ast.Call) and method_name(arg) in ('clamp', 'clamp_min', 'clip', 'clamp_', 'nan_to_num', 'abs', 'relu'):
+            altered.append(method_name(arg))
+            arg = arg.func.value if isinstance(arg.func, ast.Attribute) and not (isinstance(arg.func.value, ast.Name) and arg.func.value.id == 'torch') else arg.args[0]
+            continue
+        if isinstance(arg, ast.Call) and method_name(arg) in ('max', 'maximum', 'fmax') and len(arg.args) == 2 and isinstance(arg.func, ast.Attribute) \
+                and isinstance(arg.func.value, ast.Name) and arg.func.value.id == 'torch':
+            mm = [a for a in arg.args if isinstance(a, ast.BinOp) and isinstance(a.op, ast.MatMult)]
+            if len(mm) == 1:
+                altered.append(method_name(arg))
+                arg = mm[0]
+                continue
+        if isinstance(arg, ast.BinOp) and isinstance(arg.op, ast.Add) and any(isinstance(a, ast.BinOp) and isinstance(a.op, ast.MatMult) for a in (arg.left, arg.right)):
+            altered.append('+ ' + ast.unparse(arg.right if isinstance(arg.left, ast.BinOp) and isinstance(arg.left.op, ast.MatMult) else arg.left)[:30])
+            arg = arg.left if isinstance(arg.left, ast.BinOp) and isinstance(arg.left.op, ast.MatMult) else arg.right
+            continue
+        break
+    out['log_argument_altered'] = altered
     if not (isinstance(arg, ast.BinOp) and isinstance(arg.op, ast.MatMult)):
         raise Unsupported(arg, 'log argument is not freqs @ …')
     out['freqs_left'] = isinstance(arg.left, ast.Name) and arg.left.id == freqs
